@@ -19,7 +19,6 @@ import (
 	"path/filepath"
 	"regexp"
 	"runtime"
-	"runtime/pprof"
 	"sort"
 	"strconv"
 	"strings"
@@ -314,8 +313,8 @@ type caseC struct {
 	Target  string   `json:"aimed_at,omitempty"`
 	Cwd     string   `json:"cwd"`
 
-	Allowed  bool   `json:"oracle_allowed"`
-	named int // canary named by the cleaned location when it is allowed
+	Allowed bool `json:"oracle_allowed"`
+	named   int  // canary named by the cleaned location when it is allowed
 }
 
 type obsT struct {
@@ -717,11 +716,6 @@ func (e *env) check(cs caseC) {
 func jsonStr(v any) string { b, _ := json.Marshal(v); return string(b) }
 
 func run(c *lib.Ctx) {
-	if pf := os.Getenv("VERIF_C17_PROF"); pf != "" && c.ShardI == 0 {
-		f, _ := os.Create(pf)
-		_ = pprof.StartCPUProfile(f)
-		defer pprof.StopCPUProfile()
-	}
 	e, err := newEnv(c)
 	if err != nil {
 		c.EngineError(err.Error())
@@ -733,7 +727,7 @@ func run(c *lib.Ctx) {
 		c.Note("bounds", fmt.Sprintf("departures from the plain absolute spelling per location <= %d (classes: segment insertion, percent-encoding, suffix, prefix/scheme; dot-dot routes are extra); segment insertions at %s",
 			map[bool]int{true: 1, false: 2}[c.Quick()], map[bool]string{true: "the first and the last separator", false: "every separator inside the tree and the first"}[c.Quick()]))
 	}
-	idx := 0
+	idx, mine := 0, 0
 	cwd := rootVar + "/" + cwdRel
 outer:
 	for _, l := range locs {
@@ -744,7 +738,7 @@ outer:
 					if !c.Mine(idx) {
 						continue
 					}
-					if idx%64 == 0 && c.Expired() {
+					if mine++; mine%64 == 0 && c.Expired() {
 						break outer
 					}
 					cs := caseC{PatName: pl.Name, Pats: pl.Pats, Loc: e.unsub(l.Loc), Entry: en, White: white, Class: l.Class, Target: l.Target, Cwd: cwd}
@@ -811,7 +805,7 @@ func main() {
 				"http_requests_attempted":             m.Counters["http_requests_attempted"],
 				"pattern_lists":                       len(patLists),
 				"entry_points":                        entries,
-				"rule": "11 pattern lists (empty, exact, dir/*, dir/?.txt, dir/[ab].txt, */a.txt, two patterns, root/*/a.txt, directory itself, *, dir/) x locations x 5 entry points (add_url, set_url, set_url disabled-then-enabled, forced refresh handler, periodic refresh tick; the last two with the location already in the configuration) x block/allow registry. Locations: 13 targets (10 canary files in safe dir, its sub-directory, unsafe dir, tree root, look-alike 'safe-evil' dir; a missing file; two directories) x dot-dot routes (direct, via safe/, safe/sub/, a FILE safe/a.txt/, unsafe/, safe-evil/, overshoot above /) x departures: segment insertion (/./, //, /x/../), percent-encoding (last separator, dots, first letter), suffix (/, /., //, /x/.., ?x=1), prefix (relative to cwd=safe dir, ./relative, file://, FILE://, file:, file://localhost, ftp://, ftp://host, unix://, http://closed-port, https://, http://, leading space) + 18 stand-alone spellings (empty, NUL bytes, backslashes, ~). non-trivial = case in which a canary file was legitimately read, or a spelling aimed at an existing canary file had to be refused",
+				"rule":                                "11 pattern lists (empty, exact, dir/*, dir/?.txt, dir/[ab].txt, */a.txt, two patterns, root/*/a.txt, directory itself, *, dir/) x locations x 5 entry points (add_url, set_url, set_url disabled-then-enabled, forced refresh handler, periodic refresh tick; the last two with the location already in the configuration) x block/allow registry. Locations: 13 targets (10 canary files in safe dir, its sub-directory, unsafe dir, tree root, look-alike 'safe-evil' dir; a missing file; two directories) x dot-dot routes (direct, via safe/, safe/sub/, a FILE safe/a.txt/, unsafe/, safe-evil/, overshoot above /) x departures: segment insertion (/./, //, /x/../), percent-encoding (last separator, dots, first letter), suffix (/, /., //, /x/.., ?x=1), prefix (relative to cwd=safe dir, ./relative, file://, FILE://, file:, file://localhost, ftp://, ftp://host, unix://, http://closed-port, https://, http://, leading space) + 18 stand-alone spellings (empty, NUL bytes, backslashes, ~). non-trivial = case in which a canary file was legitimately read, or a spelling aimed at an existing canary file had to be refused",
 			}
 		},
 		Assumptions: []string{
